@@ -424,18 +424,28 @@ impl DiskCache {
         // release lock
         drop(state);
 
-        // remove files after done with modifying in memory state and releasing lock
+        // remove files after done with modifying in memory state and releasing lock.
+        // These items have already left the state, so every one of their files has to go even if
+        // cleaning up after an earlier one fails; the first error is reported once all are done.
+        let mut cleanup_result = Ok(());
         for path in overlapping_item_paths {
-            remove_file(&path)?;
+            let r = remove_file(&path);
+            if cleanup_result.is_ok() {
+                cleanup_result = r;
+            }
         }
         for path in evicted_paths {
-            remove_file(&path)?;
-            // check and try to remove key path if all items evicted for key
-            let dir_path = path.parent().ok_or(ChunkCacheError::Infallible)?;
-            check_remove_dir(dir_path)?;
+            let r = remove_file(&path).and_then(|_| {
+                // check and try to remove key path if all items evicted for key
+                let dir_path = path.parent().ok_or(ChunkCacheError::Infallible)?;
+                check_remove_dir(dir_path)
+            });
+            if cleanup_result.is_ok() {
+                cleanup_result = r;
+            }
         }
 
-        Ok(())
+        cleanup_result
     }
 
     // on a non-error case, returns true if the item is a good match and a new item should not be inserted
@@ -787,10 +797,12 @@ fn remove_file(path: impl AsRef<Path>) -> Result<(), ChunkCacheError> {
     Ok(())
 }
 
-/// removes a directory but disregards a "NotFound" error if the directory is already gone
+/// removes a directory but disregards a "NotFound" error if the directory is already gone,
+/// and a "DirectoryNotEmpty" error if a concurrent put has placed a file in it since it was
+/// found empty (the directory is in use again and simply stays)
 fn remove_dir(path: impl AsRef<Path>) -> Result<(), ChunkCacheError> {
     if let Err(e) = std::fs::remove_dir(path) {
-        if e.kind() != ErrorKind::NotFound {
+        if e.kind() != ErrorKind::NotFound && e.kind() != ErrorKind::DirectoryNotEmpty {
             return Err(e.into());
         }
     }
